@@ -54,7 +54,42 @@ Example C03_example :
   end.
 Proof. vm_compute. split; reflexivity. Qed.
 
+(* ---- the geometry-faithful model ----
+   iovec/Geo.v models OwningIovec over GlobalDeque, ByteArena, AllocCache and Anchor function by function: slices
+   are pointers into arena chunks, and the copy / borrow / merge decisions are computed from the arena geometry
+   as in the source (nothing is taken from the implementation).  Every history of one OwningIovec that does not
+   panic is matched operation by operation by a history of the pipe above, with the merge decisions Geo computed
+   and equal outputs; the final states hold the same bytes slice by slice, and the pipe state is in Inv, so every
+   theorem of this file applies to it. *)
+From WP Require iovec.Geo iovec.GeoProofs iovec.GeoRefine iovec.GeoHistory.
+Theorem C03_geo_refines_pipe ops h' g' xs :
+  GeoHistory.g1run [] Geo.empty_iov ops = Some (h', g', xs) ->
+  GeoProofs.GInv h' g' /\
+  exists s', GeoHistory.pipe_hist empty_st ops xs s' /\ GeoRefine.R h' g' s' /\ Inv s'.
+Proof. exact (GeoHistory.geo_refines_pipe ops h' g' xs). Qed.
+Theorem C03_geo_bytes h g s : GeoRefine.R h g s -> Geo.all_bytes h g = map fst (concat (slices s)).
+Proof. exact (GeoHistory.R_all_bytes h g s). Qed.
+
+(* non-vacuity: a Geo history with merged copies, two placeholders filled out of order, a borrowed slice, anchored
+   input, partial consumption; it does not panic, so the theorem applies *)
+Example C03_geo_example :
+  let b3 := {| Geo.bend := 3; Geo.bidx := 0; Geo.bbegin := 2; Geo.blen := 1 |}%N in
+  let b6 := {| Geo.bend := 6; Geo.bidx := 0; Geo.bbegin := 4; Geo.blen := 2 |}%N in
+  match GeoHistory.g1run [] Geo.empty_iov
+          [GeoHistory.HPushCopy [1;2]%N; GeoHistory.HRegister [0]%N; GeoHistory.HPush [3]%N; GeoHistory.HRegister [0;0]%N;
+           GeoHistory.HPushBorrowed [4]%N; GeoHistory.HAnchored [5;5]%N; GeoHistory.HBackfill (Some b6) [8;9]%N;
+           GeoHistory.HConsume 5%N; GeoHistory.HBackfill (Some b3) [7]%N; GeoHistory.HAdvance 3%N; GeoHistory.HRead 10%N] with
+  | Some (h, g, outs) =>
+      outs = [GeoHistory.GUnit; GeoHistory.GHandle (Some b3); GeoHistory.GUnit; GeoHistory.GHandle (Some b6); GeoHistory.GUnit;
+              GeoHistory.GUnit; GeoHistory.GUnit; GeoHistory.GCount 0%N; GeoHistory.GUnit; GeoHistory.GCount 3%N;
+              GeoHistory.GBytes [3;8;9;4;5;5]%N] /\ Geo.all_bytes h g = []
+  | None => False
+  end.
+Proof. vm_compute. split; reflexivity. Qed.
+
 Print Assumptions C03_push.
+Print Assumptions C03_geo_refines_pipe.
+Print Assumptions C03_geo_bytes.
 Print Assumptions C03_register.
 Print Assumptions C03_backfill.
 Print Assumptions C03_consume.
